@@ -192,6 +192,36 @@ func runC20(c *Ctx) {
 			})
 			c.check(complete, fr, "tree reset", fr.Pos(), "every element of the tree is cleared", "FenwickTree.Reset does not clear every element (index 0..len-1): nodes that keep their partial sums make Sum() non-zero after a drain, and slots pushed afterwards are shifted by a phantom offset")
 		}
+		// Reset of the sequencer empties all three parts: offsets, container, byte count
+		{
+			rs := sm("Reset")
+			offReset, contReset, bytesZero := false, false, false
+			eachInstrDeep(rs, func(in, _ ssa.Instruction, _ func(ssa.Value) ssa.Value) {
+				if isCallToFn(in, om("Reset")) {
+					offReset = true
+				}
+				if isCallToFn(in, cm("Reset")) {
+					contReset = true
+				}
+				if st, ok := in.(*ssa.Store); ok {
+					if fv, _ := fieldAddrOf(st.Addr); fv == bytesF && isConstInt(st.Val, 0) {
+						bytesZero = true
+					}
+				}
+			})
+			c.check(offReset && contReset && bytesZero, rs, "reset", rs.Pos(), "offsetter, container and byte count are all cleared", fmt.Sprintf("SlotSequencer.Reset does not clear all of its state (offsetter=%v container=%v bytes=%v): Bytes()/Size() report slots that are gone, or slots pushed later are shifted by offsets of the previous use", offReset, contReset, bytesZero))
+			cr := cm("Reset")
+			emptied := false
+			for _, a := range storesDeep(cr, slotsF) {
+				if sl, ok := stripConv(a.Val).(*ssa.Slice); ok && sl.High != nil && isConstInt(sl.High, 0) {
+					emptied = true
+				}
+				if isNil(a.Val) {
+					emptied = true
+				}
+			}
+			c.check(emptied, cr, "reset", cr.Pos(), "the container is emptied", "sequencedSlots.Reset leaves the stored slots in place: after SlotSequencer.Reset, Size() still counts them and a later Pop returns a slot whose bytes are long gone")
+		}
 		for _, g := range []struct {
 			fn   *ssa.Function
 			want string
